@@ -104,9 +104,14 @@ static void vbr_shapes(int toc,int sd,int fcbase,int M,int padi,int k){
    }
 }
 
+/* items: one per (toc, framing) for codes 0-2; for code 3 one per (toc, framing, count byte) so that the deep VBR enumerations of the
+   thorough tier stay well below the per-item CPU watchdog */
 static void item(long it,void *ctx){
-   int toc=(int)(it>>1), sd=(int)(it&1), code=toc&3, i,j;
+   int toc, sd, code, i,j, fc_only=-1;
    (void)ctx;
+   if (it<384){ int t=(int)(it>>1); toc=(t/3)*4+(t%3); sd=(int)(it&1); }
+   else { long r=it-384; fc_only=(int)(r&255); r>>=8; sd=(int)(r&1); toc=(int)(r>>1)*4+3; }
+   code=toc&3;
    mc_case("parse","toc=%02x sd=%d",toc,sd);
    if (code==0||code==1){
       hlen=0; hdr[hlen++]=(unsigned char)toc;
@@ -122,6 +127,7 @@ static void item(long it,void *ctx){
       int fc;
       for(fc=0;fc<256;fc++){
          int M=fc&0x3F, pf=(fc>>6)&1, vbr=(fc>>7)&1, npad= pf?11:1, pi;
+         if (fc!=fc_only) continue;
          for(pi=(pf?1:0); pi<(pf?npad:1); pi++){
             hlen=0; hdr[hlen++]=(unsigned char)toc; hdr[hlen++]=(unsigned char)fc; if(pf) put_pad(pi);
             if (!vbr){
@@ -215,7 +221,7 @@ int main(int argc,char **argv){
       { mc_ctr *st=mc_counter("states"),*tr=mc_counter("transitions"),*dn=mc_counter("distinct_nontrivial"); *st=256; *tr=*c_helper; *dn=256; }
       mc_sample("toc=0x0b count=0x41 N=0..12: nb_frames/nb_samples at 5 rates vs model; has_lbrr for all 256 first bytes vs real range decoder");
    } else {
-      mc_par(512,item,NULL);
+      mc_par(384+64*2*256,item,NULL);
       { mc_ctr *st=mc_counter("states"),*tr=mc_counter("transitions"),*dn=mc_counter("distinct_nontrivial");
         *st=mc_set_count(shapes); *tr=*c_eval; *dn=mc_set_count(shapes); }
       mc_sample("toc=0x03 count-byte=0xC3 pad-chain=[255,1] VBR fields {1,252/1}: N over header truncations and T-2..T+2, T+1273..T+1277: accept/reject + all fields vs RFC model");
